@@ -145,13 +145,43 @@ def _load_prop(prop_id: str):
     return importlib.import_module(f"harness.props.{prop_id.lower()}").PROPERTY
 
 
+def _raised(impl) -> bool:
+    return isinstance(impl, dict) and "_raised" in impl
+
+
+def _readable(prop, case, impl):
+    if _raised(impl):
+        return [impl["_raised"], "case: " + json.dumps(case, ensure_ascii=False, default=str)[:2000]]
+    return prop.readable(case, impl)
+
+
 def evaluate_cases(prop, cases: list[dict]) -> list[dict]:
     """Run implementation and model on the cases; attach `impl`, `model`, `diffs`, `fails`."""
-    impls = [prop.run_impl(c) for c in cases]
-    reqs = [prop.request(c, i) for c, i in zip(cases, impls)]
-    resps = common.run_driver(reqs)
     out = []
-    for c, i, r in zip(cases, impls, resps):
+    live = []
+    for c in cases:
+        try:
+            live.append((c, prop.run_impl(c)))
+        except common.InvalidCase:
+            raise
+        except Exception as e:  # noqa: BLE001
+            # an exception escaping from the *library* where the harness expects none (every expected exception is
+            # caught and recorded where it can occur) is an observation: the property's operations do not raise there.
+            # An exception raised by the harness' own code is a broken check, not a violation.
+            tb = traceback.extract_tb(e.__traceback__)
+            if not any("/curies/" in (fr.filename or "") and "/harness/" not in (fr.filename or "") for fr in tb):
+                raise
+            where = next(fr for fr in reversed(tb) if "/curies/" in (fr.filename or ""))
+            msg = (f"the library raised {type(e).__name__}: {str(e)[:200]} (in {Path(where.filename).name}:{where.lineno} "
+                   f"{where.name}) where the property allows no exception")
+            out.append({"case": c, "impl": {"_raised": msg}, "model": None,
+                        "diffs": [{"step": 0, "op": "unexpected exception", "implementation": msg, "model": "no exception"}],
+                        "fails": [msg]})
+    if not live:
+        return out
+    reqs = [prop.request(c, i) for c, i in live]
+    resps = common.run_driver(reqs)
+    for (c, i), r in zip(live, resps):
         diffs = prop.compare(c, i, r)
         fails = list(r.get("fail", [])) + list(prop.extra_fails(c, i, r))
         out.append({"case": c, "impl": i, "model": r.get("model"), "diffs": diffs, "fails": fails})
@@ -172,6 +202,10 @@ def _worker(args):
         samples = []
         for r in res:
             c = r["case"]
+            if _raised(r["impl"]):
+                stats["library-raised-unexpectedly"] += 1
+                bad.append(r)
+                continue
             for t in prop.tags(c, r["impl"]):
                 stats[t] += 1
             sizes[prop.size(c)] += 1
@@ -180,7 +214,9 @@ def _worker(args):
             if r["diffs"] or r["fails"]:
                 bad.append(r)
         if res:
-            samples.append(prop.sample(res[0]["case"], res[0]["impl"]))
+            first = next((r for r in res if not _raised(r["impl"])), None)
+            if first is not None:
+                samples.append(prop.sample(first["case"], first["impl"]))
         return {"n": len(res), "stats": stats, "sizes": sizes, "nontrivial": nontrivial, "bad": bad[:20],
                 "nbad": len(bad), "samples": samples, "evals": sum(prop.evaluations(r["case"]) for r in res)}
     except Exception:  # noqa: BLE001
@@ -366,7 +402,7 @@ def decide(prop_id: str, tier: str, seed: int) -> int:
         reported.add(fp)
         path = write_replay(prop_id, f"{tier}-{seed}-{len(reported)}", {
             "property": prop_id, "kind": "failing-input", "seed": seed, "tier": tier,
-            "case": small, "readable": prop.readable(small, rr["impl"]),
+            "case": small, "readable": _readable(prop, small, rr["impl"]),
             "implementation": rr["impl"], "model": rr["model"], "spec_failures": rr["fails"],
             "correspondence_diffs": rr["diffs"], "note": note,
             "replay": f"./check {prop_id} --replay <this file>"})
@@ -419,7 +455,7 @@ def decide(prop_id: str, tier: str, seed: int) -> int:
                 "property": prop_id, "kind": "broken-correspondence", "seed": seed, "tier": tier,
                 "broken": f"correspondence {prop_id}/{rr['diffs'][0]['op'] if rr['diffs'] else '?'}",
                 "theorems_no_longer_tied_to_the_code": sorted(required),
-                "disagreement": small, "readable": prop.readable(small, rr["impl"]),
+                "disagreement": small, "readable": _readable(prop, small, rr["impl"]),
                 "diffs": rr["diffs"], "implementation": rr["impl"], "model": rr["model"],
                 "searched_cases_without_spec_failure": widened + agg["n"],
                 "replay": f"./check {prop_id} --replay <this file>"})
@@ -478,7 +514,7 @@ def replay(prop_id: str, path: str) -> int:
     payload = json.loads(Path(path).read_text())
     case = payload.get("case") or payload.get("disagreement") or payload
     r = evaluate_cases(prop, [case])[0]
-    print("\n".join(prop.readable(case, r["impl"])))
+    print("\n".join(_readable(prop, case, r["impl"])))
     print("implementation:", [common.show_val(v) for v in r["impl"]] if isinstance(r["impl"], list) else r["impl"])
     print("model:         ", [common.show_val(v) for v in r["model"]] if isinstance(r["model"], list) else r["model"])
     print("correspondence diffs:", json.dumps(r["diffs"], indent=1))
